@@ -113,3 +113,18 @@ def gen_sort_table(rng, maxrows=8, nfields=None, ragged=None):
             row = row[:rng.randint(0, len(row))]
         rows.append(row)
     return [[enc(c) for c in row] for row in rows]
+
+
+def sorted_row(j, nf=5, stride=1):
+    """Row number j (1-based data row index) of an endless table sorted by
+    its first field and by whole rows: key groups of sizes 1, 2, 3, 1, 2, 3...
+    `stride` 2 gives every second row of the stride-1 table (a sorted table
+    sharing half of its rows with it)."""
+    j = (j - 1) * stride
+    key = 3 * (j // 6) + [0, 1, 1, 2, 2, 2][j % 6]
+    row = [key, 'r%07d' % j, j % 10, j % 4, 'e%d' % (j % 3)]
+    return row[:nf]
+
+
+def gen_sorted_table(n, nf=5, stride=1):
+    return [FIELDS[:nf]] + [sorted_row(j, nf, stride) for j in range(1, n + 1)]
